@@ -65,7 +65,8 @@ class ParserRig:
         if exc is not None:
             evs.append(exc)
             self.dead = True
-        third = self.parser._parsing_pos10 if self.base == 10 else b''.join(self._message_list)
+        third = self.parser._parsing_pos10 if self.base == 10 else b''.join(
+            x if isinstance(x, (bytes, bytearray)) else str(x).encode('utf-8', 'surrogatepass') for x in self._message_list)
         return [evs, self._buffer.getvalue(), third, 1 if self.dead else 0]
 
 
@@ -621,3 +622,25 @@ def frame(base, payload, rng=None):
     return encode11([chunks])
 
 MSGID = re.compile(r'message-id="([^"]+)"')
+
+
+def replay_obligation(doc, pid):
+    """replay file of kind 'obligation' (a tie broke, no failing input found): re-run the recorded disagreeing cases on the
+    extracted model and the implementation; True if they agree now and nothing else was broken"""
+    from vlib.model import Model
+    ok = not doc.get('broken')
+    for b in doc.get('broken', []):
+        print('broken   : %s: %s' % (b.get('kind'), str(b.get('detail'))[:300]))
+    m = Model(pid)
+    have = os.path.exists(m.path)
+    for d in doc.get('correspondence', []):
+        c = d['case']
+        print('case     :', c, '|', d.get('what'), '| theorem', d.get('theorem'))
+        if 'segs' not in c or not have:
+            print('expected :', d.get('expected')); print('actual   :', d.get('actual')); ok = False; continue
+        segs = [unhx(h) for h in c['segs']]
+        mo = m.call([1 if c['base'] == 10 else 2, segs]); recs = run_parser(c['base'], segs)
+        same, why = records_equal(mo, recs)
+        print('expected : (model)', mo); print('actual   : (impl) ', recs)
+        if not same: print('FAILS    : model and implementation differ:', why); ok = False
+    return ok
